@@ -199,9 +199,15 @@ func (p *Proc) readLoop() {
 	}
 }
 
-// escState strips ANSI escape sequences across chunk boundaries.
+// escState interprets the few terminal controls the line editor uses, across
+// chunk boundaries: escape sequences are removed, and "cursor left n" +
+// "erase to end of line" (how the prompt is taken away before output is
+// written) really delete text, so that a prompt redrawn in the middle of shell
+// output leaves no trace in the clean text.
 type escState struct {
-	st int // 0 text, 1 after ESC, 2 in CSI, 3 in OSC, 4 OSC after ESC
+	st    int // 0 text, 1 after ESC, 2 in CSI, 3 in OSC, 4 OSC after ESC
+	param []byte
+	back  int // how far the cursor is to the left of the end of the text
 }
 
 func (e *escState) feed(dst, b []byte) []byte {
@@ -210,13 +216,22 @@ func (e *escState) feed(dst, b []byte) []byte {
 		case 0:
 			if c == 0x1b {
 				e.st = 1
-			} else {
-				dst = append(dst, c)
+				continue
 			}
+			if e.back > 0 && c != '\n' && c != '\r' {
+				dst[len(dst)-e.back] = c // overwrite in place
+				e.back--
+				continue
+			}
+			if c == '\n' {
+				e.back = 0
+			}
+			dst = append(dst, c)
 		case 1:
 			switch c {
 			case '[':
 				e.st = 2
+				e.param = e.param[:0]
 			case ']':
 				e.st = 3
 			default:
@@ -225,6 +240,41 @@ func (e *escState) feed(dst, b []byte) []byte {
 		case 2:
 			if c >= 0x40 && c <= 0x7e {
 				e.st = 0
+				n := 0
+				for _, d := range e.param {
+					if d >= '0' && d <= '9' {
+						n = n*10 + int(d-'0')
+					}
+				}
+				switch c {
+				case 'D': // cursor left, not beyond the start of the line
+					if n == 0 {
+						n = 1
+					}
+					e.back += n
+					lineLen := len(dst)
+					if k := lastNL(dst); k >= 0 {
+						lineLen = len(dst) - k - 1
+					}
+					if e.back > lineLen {
+						e.back = lineLen
+					}
+				case 'C': // cursor right
+					if n == 0 {
+						n = 1
+					}
+					e.back -= n
+					if e.back < 0 {
+						e.back = 0
+					}
+				case 'K': // erase to end of line
+					if n == 0 && e.back > 0 {
+						dst = dst[:len(dst)-e.back]
+						e.back = 0
+					}
+				}
+			} else {
+				e.param = append(e.param, c)
 			}
 		case 3:
 			if c == 0x07 {
@@ -237,6 +287,15 @@ func (e *escState) feed(dst, b []byte) []byte {
 		}
 	}
 	return dst
+}
+
+func lastNL(b []byte) int {
+	for i := len(b) - 1; i >= 0; i-- {
+		if b[i] == '\n' {
+			return i
+		}
+	}
+	return -1
 }
 
 // Raw returns everything read from the terminal so far.
